@@ -640,11 +640,13 @@ Definition mpi_read (file mem : disk) (t : iotypes) : disk := write_chunks mem (
 (* ====================================================================== *)
 (* 6. req_commit                                                            *)
 (* ====================================================================== *)
-(* the newnumrecs loop EXACTLY as written: it inspects the first num_w_lead_reqs entries of the
-   lead queue, not the flagged ones *)
-Definition newnumrecs_loop (st : nbstate) (nwl : Z) : Z :=
+(* the newnumrecs loop of req_commit: every entry of the lead put queue that is flagged NC_REQ_TO_FREE and
+   belongs to a record variable contributes its max_rec
+   (`for (i=0; i<ncp->numLeadPutReqs; i++)` since fix 186ba92c; the earlier bound num_w_lead_reqs - the NUMBER
+   of requests being completed - is kept as newnumrecs_loop_old in Proofs_Nonblocking.v, where it is refuted) *)
+Definition newnumrecs_loop (st : nbstate) : Z :=
   fold_left (fun m l => if g_isrec (l_geom l) && l_to_free l then Z.max m (l_max_rec l) else m)
-            (zfirstn nwl (put_lead st)) (st_numrecs st).
+            (put_lead st) (st_numrecs st).
 
 (* I/O phase of one process *)
 Definition commit_io (st : nbstate) (pe ge : list req) (do_write do_read : bool) (newnumrecs : Z) (file : disk)
@@ -710,7 +712,7 @@ Definition wait_one (st : nbstate) (a : waitargs) (file : disk) : waitres * disk
   let st1 := ex_st ex in
   if negb (ex_err ex =? NC_NOERR) then (mkwr st1 (ex_err ex) (ex_ids ex) (ex_stat ex) [], file)
   else
-    let nn := newnumrecs_loop st1 (ex_nwl ex) in
+    let nn := newnumrecs_loop st1 in
     let '(st2, file') := commit_io st1 (ex_put ex) (ex_get ex)
                                    (0 <? Zlen (ex_put ex)) (0 <? Zlen (ex_get ex)) nn file in
     let '(st3, ev) := commit_post st2 (ex_nwl ex) (ex_nrl ex) in
@@ -726,7 +728,7 @@ Definition wait_coll (sts : list nbstate) (args : list waitargs) (file : disk) :
     (* every process returns its own err; nothing else happens *)
     (map (fun ex => mkwr (ex_st ex) (ex_err ex) (ex_ids ex) (ex_stat ex) []) exs, file)
   else
-    let nn := fold_left Z.max (map (fun ex => newnumrecs_loop (ex_st ex) (ex_nwl ex)) exs) 0 in
+    let nn := fold_left Z.max (map (fun ex => newnumrecs_loop (ex_st ex)) exs) 0 in
     let do_write := existsb (fun ex => 0 <? Zlen (ex_put ex)) exs in
     let do_read := existsb (fun ex => 0 <? Zlen (ex_get ex)) exs in
     (* writes of all processes first, then reads (each process: write then read; the reads of a
